@@ -419,7 +419,7 @@ pub fn gen_filter(rng: &mut Rng, p: &Pools, eng: &Eng, plan: usize) -> SemFilter
             // inverted or far-future window
             let a = *rng.pick(&p.times);
             if rng.chance(1, 2) {
-                f.since = Some(a + 1);
+                f.since = Some(a.saturating_add(1));
                 f.until = Some(a);
             } else {
                 f.since = Some(u64::MAX - rng.below(3));
